@@ -37,7 +37,21 @@ def _mk(rng, n, mode, val, i):
     if kind == 'casesx':
         divs = [m for m in range(2, n + 1) if n % m == 0]
         c['sub'] = rng.choice(divs)           # n = (n / sub) cases x sub combinations
+    if kind != 'grid':
+        # how the case list is written: a list of dicts, a list of tuples, a generator of dicts, or -- for one case --
+        # the single dict itself (all accepted by parse_cases)
+        ncases = n // c['sub'] if kind == 'casesx' else n
+        c['spell'] = rng.choice(['dicts', 'dicts', 'tuples', 'gen']) if ncases > 1 else rng.choice(['onedict', 'onedict', 'dicts', 'tuples'])
     return c
+
+
+def _spell(inp, how):
+    """the case list of `inp` in one of the spellings parse_cases accepts"""
+    cs = [dict(d) for d in inp['cases']]
+    if how == 'onedict' and len(cs) == 1: return cs[0]
+    if how == 'tuples': return [tuple(d[a] for a in inp['fn_args']) for d in cs]
+    if how == 'gen': return (d for d in cs)
+    return cs
 
 
 def cases(ctx):
@@ -56,6 +70,15 @@ def cases(ctx):
         mode = rng.choice(['bs', 'nb'])
         val = rng.choice([1, 2, 3, n - 1, n, n + 1, rng.randint(1, n + 2), max(1, n // rng.randint(2, 9))])
         i += 1; out.append(_mk(rng, n, mode, max(1, val), i))
+    # ONE case (alone, or crossed with a sub-grid of every size), mostly written as the single dict itself
+    for sub in range(1, 9):
+        for mode, vals in (('bs', (1, 2, 3, sub, sub + 1)), ('nb', (1, 2, 3, sub, sub + 2)), ('none', (None,))):
+            for val in vals:
+                i += 1
+                c = _mk(rng, sub, mode, val, 6 * i)           # i % 3 == 0 and i % 2 == 0: 'casesx' when n >= 2, else 'cases'
+                if c['kind'] == 'casesx': c['sub'] = sub
+                c['spell'] = 'onedict' if i % 4 else rng.choice(['dicts', 'tuples'])
+                out.append(c)
     # re-sow: a second sow of another number of settings into the sown crop (same object or a reloaded one); the
     # remembered (batchsize, num_batches, remainder) either still fit -- then every batch file is rewritten -- or the
     # sow is refused.  N2 runs over the whole window around the acceptance bounds.
@@ -74,7 +97,7 @@ def cases(ctx):
     for c in out:
         ctx.count('resow', 'no' if 'resow' not in c else 'reload' if c['resow']['reload'] else 'same-object')
         ctx.count('mode', 'bs' if 'bs' in c else 'nb' if 'nb' in c else 'none')
-        ctx.count('kind', c['kind']); ctx.count('shuffle', bool(c['shuffle'])); ctx.count('farmer', c['farmer'])
+        ctx.count('kind', c['kind']); ctx.count('case spelling', c.get('spell', '-')); ctx.count('shuffle', bool(c['shuffle'])); ctx.count('farmer', c['farmer'])
     return out
 
 
@@ -135,7 +158,8 @@ def run_real(c, ctx):
                 else:
                     if c['shuffle']: crop.shuffle = c['shuffle']
                     xkw = {'combos': inp['combos']} if c['kind'] == 'casesx' else {}
-                    crop.sow_cases(inp['fn_args'], inp['cases'], constants=inp['sow_consts'] or None, verbosity=0, **skw, **xkw)
+                    crop.sow_cases(inp['fn_args'], _spell(inp, c.get('spell', 'dicts')), constants=inp['sow_consts'] or None,
+                                   verbosity=0, **skw, **xkw)
         except Exception as e:
             return {'err': type(e).__name__}
         try:
